@@ -337,7 +337,7 @@ static inline int supervise(const std::vector<std::string>& lines, const char* o
                 // sources, leaked worlds) must not accumulate into the behaviours that follow
                 if (k - start >= 1000) {
                     fclose(out);
-                    _exit(77);
+                    _exit(91);   // (77 is the AddressSanitizer exit code used by the runners)
                 }
                 g_shared->cur = k;
                 g_shared->phase = -1;
@@ -363,7 +363,7 @@ static inline int supervise(const std::vector<std::string>& lines, const char* o
         int status = 0;
         waitpid(pid, &status, 0);
         if (WIFEXITED(status) && WEXITSTATUS(status) == 0) break;
-        if (WIFEXITED(status) && WEXITSTATUS(status) == 77) {   // voluntary recycling
+        if (WIFEXITED(status) && WEXITSTATUS(status) == 91) {   // voluntary recycling
             start = g_shared->cur + 1;
             g_resume_phase = -1;
             continue;
@@ -387,7 +387,13 @@ static inline int supervise(const std::vector<std::string>& lines, const char* o
             start = cur + 1;
             g_resume_phase = -1;
         }
-        if (crashes > 200000) break;
+        if (crashes > 400) {
+            // a tree that crashes this often has been judged: do not spend the time budget on the rest
+            FILE* o2 = fopen(out_path, "a");
+            fprintf(o2, "{\"e\":\"Aborted\",\"i\":%lld,\"crashes\":%d}\n", (long long)cur, crashes);
+            fclose(o2);
+            break;
+        }
     }
     return 0;
 }
